@@ -15,7 +15,7 @@ var (
 
 var BiscuitLexerRules = []lexer.SimpleRule{
 	{Name: "Keyword", Pattern: `check if|allow if|deny if`},
-	{Name: "Function", Pattern: `prefix|suffix|matches|length|contains`},
+	{Name: "Function", Pattern: `(prefix|suffix|matches|length|contains)\b`},
 	{Name: "Hex", Pattern: `hex:([0-9a-fA-F]{2})*`},
 	{Name: "Dot", Pattern: `\.`},
 	{Name: "Arrow", Pattern: `<-`},
@@ -28,7 +28,7 @@ var BiscuitLexerRules = []lexer.SimpleRule{
 	{Name: "Parameter", Pattern: `\{[a-zA-Z0-9_:]+\}`},
 	{Name: "DateTime", Pattern: `\d\d\d\d-\d\d-\d\dT\d\d:\d\d:\d\d(\.\d+)?(Z|([-+]\d\d:\d\d))?`},
 	{Name: "Int", Pattern: `[0-9]+`},
-	{Name: "Bool", Pattern: `true|false`},
+	{Name: "Bool", Pattern: `(true|false)\b`},
 	{Name: "Ident", Pattern: `[a-z][a-zA-Z0-9_:]*`},
 	{Name: "Whitespace", Pattern: `[ \t]+`},
 	{Name: "EOL", Pattern: `[\n\r]+`},
